@@ -187,9 +187,9 @@ func (l *Line) Module(name string, msg string) *Line {
 
 func (l *Line) newModule(module string, msg string) *Line {
 	if module != "" {
-		copy(l.buffer[l.index:], "      :")
+		n := copy(l.buffer[l.index:], "      :")
 		copy(l.buffer[l.index:l.index+6], module)
-		l.index = l.index + 7
+		l.index = l.index + n // never past the buffer
 	}
 	if msg != "" {
 		l.appendByte(' ')
@@ -559,7 +559,7 @@ func (l *Line) IP(name string, value netip.Addr) *Line {
 	if value.IsValid() {
 		// CAUTION: there must be enough space in buffer to extend otherwise it will be reallocated.
 		b := value.AppendTo(l.buffer[l.index:l.index])
-		l.index = l.index + len(b)
+		l.index = l.index + copy(l.buffer[l.index:], b) // b is the buffer itself when it fitted; otherwise keep what fits
 		return l
 	}
 	l.index = l.index + copy(l.buffer[l.index:], "nil")
